@@ -290,7 +290,6 @@ pub fn token(input: &mut &str) -> PResult<Token> {
         Test::parse.map(Token::Test),
         Action::parse.map(Token::Action),
         GlobalOption::parse.map(Token::Global),
-        PositionalOption::parse.map(Token::Positional),
         fail.context(expected("invalid_token")),
     ))
     .context(label("syntax"))
